@@ -21,18 +21,30 @@ def write_universe(cases):
     return path
 
 
-def run_mc(rep, module, cases=None, env=None, workers=16, cfg=None, heap="16g", timeout=3000):
+COVERAGE_OK = {"MC_Codec", "MC_Layout", "MC_Cuts", "MC_Expr", "MC_Hexdump", "MC_Enum", "MC_TypeTable", "MC_Threads", "MC_Ptr"}
+# models on which -coverage 1 is affordable (it exhausts memory / time on MC_Plan, MC_Bits, MC_Scalar, MC_Union, MC_Session)
+
+
+def run_mc(rep, module, cases=None, env=None, workers=16, cfg=None, heap="16g", timeout=3000, coverage=None):
     path = write_universe(cases) if cases is not None else None
     try:
         e = dict(env or {})
         if path:
             e["UNIVERSE_FILE"] = path
+        coverage = (module in COVERAGE_OK and rep.tier == "quick") if coverage is None else coverage
         res = tlc.run(os.path.join(MC, module + ".tla"), os.path.join(MC, (cfg or module) + ".cfg"), env=e, workers=workers,
-                      heap=heap, timeout=timeout)
+                      heap=heap, timeout=timeout, extra=["-coverage", "1"] if coverage else [])
     finally:
         if path:
             os.unlink(path)
     rep.add_mc(module if not cfg else cfg, res)
+    if coverage:
+        cov = {a: n[1] for a, n in res.coverage().items() if a != "Init"}
+        rep.mc_runs[-1]["action_counts"] = cov
+        dead = sorted(a for a, n in cov.items() if n == 0)
+        if dead:
+            # an action of the model that is never taken means the invariants about it were never exercised
+            raise MachineryError(f"vacuous model run {cfg or module}: action(s) never taken: {dead}")
     return res
 
 
